@@ -55,9 +55,13 @@ def synthetic_schedule(rng):
     outer = []  # (name, dim, factor)
     sizes = {}
     coeff = {}
+    # innermost (spatial) extents: the gemmx 8x8x8 mostly; other extents make the running stride leave the access granularity early,
+    # so that padded strides are followed by further tile levels and dimensions
+    odd = rng.random() < 0.35
+    inner_b = {d: (rng.choice([8, 2, 3, 4, 5, 6]) if odd else 8) for d in "mnk"}
     for d in "mnk":
         bs = [rng.choice([1, 2, 3, 4]) for _ in range(levels[d])]
-        mult = 8
+        mult = inner_b[d]
         facs = []
         for b in reversed(bs):
             facs.insert(0, (b, mult))
@@ -75,7 +79,7 @@ def synthetic_schedule(rng):
         terms.append(f"d{inner[d]}")
         return " + ".join(terms)
 
-    bounds = [b for _, _, b, _ in outer] + [8, 8, 8]
+    bounds = [b for _, _, b, _ in outer] + [inner_b["m"], inner_b["n"], inner_b["k"]]
     # the schedule always covers the whole operand (what every dart.operation -> dart.schedule gives); operands larger than the
     # accessed range were tried first and are out of domain (see DESIGN.md section 7)
     over = {d: 0 for d in "mnk"}
@@ -98,7 +102,7 @@ def synthetic_schedule(rng):
   }}
 }}
 """
-    return {"text": text, "kind": "synthetic_matmul", "acc": "snax_gemmx", "pre": "insert-accfg-op{accelerator=snax_gemmx}"}
+    return {"text": text, "kind": "synthetic_matmul" + ("+odd-inner" if odd else ""), "acc": "snax_gemmx", "pre": "insert-accfg-op{accelerator=snax_gemmx}"}
 
 
 def certify(module, case, tiled, res):
